@@ -366,12 +366,35 @@ def check_layout(rep, methods, funcs, names):
               'ranges of one line are not separated at commas')
     r = rng_loop.target.id
     branch = [s for s in rng_loop.body if isinstance(s, ast.If)]
-    okb = False
+    okb = None
+    where = rng_loop
     if len(branch) == 1 and src(branch[0].test) == "'-' in %s" % r and len(branch[0].body) == 1 and len(branch[0].orelse) == 1:
         t, f = src(branch[0].body[0]), src(branch[0].orelse[0])
         okb = t in ("%s, %s = %s.split('-')" % (y[2], y[3], r), "(%s, %s) = %s.split('-')" % (y[2], y[3], r)) and \
             f in ('%s, %s = (%s, %s)' % (y[2], y[3], r, r), '%s = %s = %s' % (y[2], y[3], r), '%s = %s = %s' % (y[3], y[2], r), '(%s, %s) = (%s, %s)' % (y[2], y[3], r, r))
-    rep.check(okb, 'DT.layout', FILE, '_parse', src(branch[0]) if branch else src(rng_loop), rng_loop.lineno,
+        where = branch[0]
+    else:
+        # the same decision inside a private helper: low, high = <helper>(range)
+        for st in rng_loop.body:
+            if isinstance(st, ast.Assign) and src(st.targets[0]) in ('%s, %s' % (y[2], y[3]), '(%s, %s)' % (y[2], y[3])) and isinstance(st.value, ast.Call) \
+                    and isinstance(st.value.func, ast.Name) and st.value.func.id in funcs and len(st.value.args) == 1 and src(st.value.args[0]) == r:
+                h = funcs[st.value.func.id]
+                hp = h.args.args[0].arg if len(h.args.args) == 1 else None
+                hb = strip_doc(h.body)
+                where = st
+                if hp and len(hb) == 2 and isinstance(hb[0], ast.If) and src(hb[0].test) == "'-' in %s" % hp and isinstance(hb[1], ast.Return) and not hb[0].orelse:
+                    inner = hb[0].body
+                    t_ok = False
+                    if len(inner) == 1 and isinstance(inner[0], ast.Return):
+                        t_ok = src(inner[0].value) in ("%s.split('-')" % hp, "tuple(%s.split('-'))" % hp)
+                    elif len(inner) == 2 and isinstance(inner[0], ast.Assign) and isinstance(inner[1], ast.Return) and isinstance(inner[0].targets[0], ast.Tuple) \
+                            and len(inner[0].targets[0].elts) == 2 and src(inner[0].value) == "%s.split('-')" % hp:
+                        a_, b_ = [src(e) for e in inner[0].targets[0].elts]
+                        t_ok = src(inner[1].value) in ('(%s, %s)' % (a_, b_),)
+                    okb = t_ok and src(hb[1].value) == '(%s, %s)' % (hp, hp)
+    if okb is None:
+        raise AnalysisError('%s:%d _parse: how low/high are derived from a range is not recognised' % (FILE, rng_loop.lineno))
+    rep.check(okb, 'DT.layout', FILE, '_parse', src(where), where.lineno,
               'low/high are not (both ends of `a-b`) or (the single value twice)')
     # read(): for <6 names> in _parse(fp): ... stack[indent].append([5 names])
     loops = [n for n in ast.walk(read) if isinstance(n, ast.For) and src(n.iter).startswith('_parse(')]
